@@ -38,9 +38,11 @@ MODULES = {
     },
     "glide": {"trace_spec": "Trace_Glide", "trace_cfg": "Trace_Glide.cfg", "graphs": {}},
     "params": {"trace_spec": "Trace_Params", "trace_cfg": "Trace_Params.cfg", "graphs": {}},
+    "voice": {"trace_spec": "Trace_Voice", "trace_cfg": "Trace_Voice.cfg", "graphs": {}},
     "lfo": {"trace_spec": "Trace_Lfo", "trace_cfg": "Trace_Lfo.cfg", "graphs": {}},
 }
 
+_VOICE_MC = ("voice", "MC_Voice", "MC_Voice.cfg", QT)
 _MIDI_MC = [
     ("midi-notes", "MC_Midi", "MC_Midi_notes.cfg", QT),
     ("midi-wire", "MC_Midi", "MC_Midi_wire.cfg", QT),
@@ -62,9 +64,9 @@ PROPS = {
     },
     "C05": {
         "module": "midi",
-        "mc": _MIDI_MC,
+        "mc": _MIDI_MC + [_VOICE_MC],
         "graphs": [("midi", "msg", QT), ("midi", "wire", QT)],
-        "traces": [("midi", "kbd", QT), ("midi", "framing", QT)],
+        "traces": [("midi", "kbd", QT), ("midi", "framing", QT), ("voice", "wired", QT)],
     },
     "C06": {
         "module": "midi",
@@ -146,7 +148,7 @@ PROPS.update({
         "traces": [("adsr", "extreme", QT), ("adsr", "durations", QT), ("lfo", "extreme", QT), ("glide", "extreme", QT),
                    ("ribbon", "extreme", QT), ("glide", "rates", QT), ("quant", "hyst", QT), ("quant", "sweep", QT), ("midi", "framing", QT),
                    ("midi", "short", QT), ("params", "floats", QT), ("params", "ints", QT), ("glide", "sched", QT),
-                   ("adsr", "random", QT), ("lfo", "freq", QT), ("ribbon", "press", QT)],
+                   ("adsr", "random", QT), ("lfo", "freq", QT), ("ribbon", "press", QT), ("voice", "wired", QT)],
         "rule": "calls executed in the overflow-checks + debug-assertions build inside catch_unwind, over the argument "
                 "end points of all six modules; a panic is a logged event no trace action accepts",
     },
